@@ -7,6 +7,8 @@
 """
 import _thread
 import atexit
+import importlib.abc
+import importlib.machinery
 import os
 import shutil
 import sys
@@ -176,6 +178,36 @@ def _cleanup(root, pid):
         shutil.rmtree(root, ignore_errors=True)
 
 
+# ------------------------------------------------------------------ interpreter configuration
+# "python -O / -OO" for the code under test only: the run's plan says at which optimisation level
+# the package is compiled (asserts and __debug__ blocks stripped at 1, docstrings too at 2).  The
+# finder below compiles ceos_alos2 from source at that level (no bytecode cache involved); the
+# simulator itself and every dependency keep running unoptimised.
+OPTIMIZE = 0
+
+
+class _OptLoader(importlib.machinery.SourceFileLoader):
+    def get_code(self, fullname):
+        path = self.get_filename(fullname)
+        return compile(self.get_data(path), path, "exec", dont_inherit=True, optimize=OPTIMIZE)
+
+
+class _OptFinder(importlib.abc.MetaPathFinder):
+    def find_spec(self, fullname, path=None, target=None):
+        if not OPTIMIZE or not (fullname == "ceos_alos2" or fullname.startswith("ceos_alos2.")):
+            return None
+        spec = importlib.machinery.PathFinder.find_spec(fullname, path, target)
+        if spec is not None and type(spec.loader) is importlib.machinery.SourceFileLoader:
+            spec.loader = _OptLoader(spec.loader.name, spec.loader.path)
+            spec.cached = None
+        return spec
+
+
+def install_optimize_finder():
+    if not any(isinstance(f, _OptFinder) for f in sys.meta_path):
+        sys.meta_path.insert(0, _OptFinder())
+
+
 def purge_code_under_test():
     """simulated process restart: drop every ceos_alos2 module and the fs/lock registries."""
     for name in [m for m in sys.modules if m == "ceos_alos2" or m.startswith("ceos_alos2.")]:
@@ -212,6 +244,7 @@ def import_code_under_test():
 def boot():
     install_lock_patch()
     install_repo_path()
+    install_optimize_finder()
     import warnings
 
     warnings.simplefilter("ignore")
